@@ -409,6 +409,17 @@ def _run(case, cfg, w):
     # ---------------------------------------------------------- oracle
     enters = w.rec.of('h_enter')
     seen_tok = {}
+    issued_sids = set(all_by_sids)
+    for pe in w.peers:
+        for r in pe.rx:
+            if r['pkt'].type == sio.CONNECT and isinstance(r['pkt'].data,
+                                                           dict):
+                issued_sids.add(r['pkt'].data.get('sid'))
+    for e in enters:
+        if e['args'] and e['args'][0] not in issued_sids:
+            v.add('handler_invoked_for_nonexistent_session',
+                  '%s ran with %s' % (e['label'], trepr(e['args'])[:200]),
+                  e['label'][3])
     for e in enters:
         if e['label'][3] != 'ev':
             if e['label'][3] in ('connect', 'disconnect') and \
